@@ -5,6 +5,17 @@ use crate::chars::{AsciiChar, Char};
 use crate::score::{BONUS_FIRST_CHAR_MULTIPLIER, SCORE_MATCH};
 use crate::Matcher;
 
+/// Like `memmem::find_iter` but also yields occurrences that overlap an earlier one.
+fn find_overlapping<'a>(haystack: &'a [u8], needle: &'a [u8]) -> impl Iterator<Item = usize> + 'a {
+    let finder = memmem::Finder::new(needle);
+    let mut start = 0;
+    std::iter::from_fn(move || {
+        let pos = start + finder.find(&haystack[start..])?;
+        start = pos + 1;
+        Some(pos)
+    })
+}
+
 impl Matcher {
     pub(crate) fn substring_match_1_ascii<const INDICES: bool>(
         &mut self,
@@ -140,7 +151,7 @@ impl Matcher {
                         haystack,
                         needle,
                         len,
-                        memmem::find_iter(
+                        find_overlapping(
                             &haystack[..haystack.len() - needle.len() + len],
                             &needle[..len],
                         ),
@@ -157,7 +168,7 @@ impl Matcher {
 
         if max_score == 0 {
             let char_class = AsciiChar(needle[0]).char_class(&self.config);
-            for i in memmem::find_iter(haystack, needle) {
+            for i in find_overlapping(haystack, needle) {
                 let prev_char_class = i
                     .checked_sub(1)
                     .map(|i| AsciiChar(haystack[i]).char_class(&self.config))
